@@ -42,6 +42,10 @@ type ar struct {
 	// loop-body mode: the body of `for _, x := range xs` translated to "is x appended to appendTo in this iteration"
 	appendTo string
 	inertOK  map[ast.Stmt]bool
+	// classification mode: several lists are appended to; the result is the code of the list this iteration appends to (0: none)
+	appendCodes map[string]int
+	// membership loops `for _, x := range S { if a == x { v = true; break } }` : S -> (lean Bool, "does S contain a")
+	containsAtoms map[string]string
 }
 
 func (a *ar) unk(what string) (string, kind) {
@@ -312,6 +316,29 @@ func (a *ar) ret(r *ast.ReturnStmt, en env) string {
 			}
 		}
 	}
+	if a.fn == "awsGuard" && len(r.Results) == 1 {
+		e := r.Results[0]
+		if isNil(e) {
+			return "((3 : Int), (0 : Int))"
+		}
+		if c, ok := e.(*ast.CallExpr); ok {
+			fn := srcOf(c.Fun)
+			switch {
+			case strings.HasPrefix(fn, "fmt.Errorf") || strings.HasPrefix(fn, "errors.New"):
+				return "((0 : Int), (0 : Int))"
+			case strings.HasSuffix(fn, ".setASGDesiredSizeOneShot") && len(c.Args) == 1:
+				x, k := a.expr(c.Args[0], en)
+				if k == kI || k == kLit {
+					return "((1 : Int), " + a.toI(x, k) + ")"
+				}
+			case strings.HasSuffix(fn, ".setASGDesiredSize") && len(c.Args) == 1:
+				x, k := a.expr(c.Args[0], en)
+				if k == kI || k == kLit {
+					return "((2 : Int), " + a.toI(x, k) + ")"
+				}
+			}
+		}
+	}
 	switch a.fn {
 	case "calculateNodesToAdd", "clampPrefix":
 		if len(r.Results) == 1 {
@@ -346,7 +373,7 @@ func (a *ar) ret(r *ast.ReturnStmt, en env) string {
 
 func (a *ar) block(ss []ast.Stmt, en env, ind string) string {
 	if len(ss) == 0 {
-		if a.appendTo != "" {
+		if a.appendTo != "" || a.appendCodes != nil {
 			return ind + "appended_"
 		}
 		u, _ := a.unk("function falls off its end")
@@ -358,18 +385,57 @@ func (a *ar) block(ss []ast.Stmt, en env, ind string) string {
 	}
 	switch v := s.(type) {
 	case *ast.BranchStmt:
-		if a.appendTo != "" && v.Tok == token.CONTINUE && v.Label == nil {
+		if (a.appendTo != "" || a.appendCodes != nil) && v.Tok == token.CONTINUE && v.Label == nil {
 			return ind + "appended_"
 		}
 	case *ast.ReturnStmt:
 		return ind + a.ret(v, en)
 	case *ast.DeclStmt:
+		// `var x bool` starts as false (other declarations are assigned before they are read, or the read is reported)
+		if gd, ok := v.Decl.(*ast.GenDecl); ok && gd.Tok == token.VAR {
+			en2 := en.copy()
+			out := ""
+			for _, sp := range gd.Specs {
+				if vs, ok := sp.(*ast.ValueSpec); ok && vs.Type != nil && srcOf(vs.Type) == "bool" && len(vs.Values) == 0 {
+					for _, n := range vs.Names {
+						out += fmt.Sprintf("%slet %s : Bool := false\n", ind, n.Name)
+						en2[n.Name] = kB
+					}
+				}
+			}
+			return out + a.block(rest, en2, ind)
+		}
 		return a.block(rest, en, ind)
+	case *ast.RangeStmt:
+		// membership loop: for _, x := range S { if a == x { v = true; break } }
+		if at, ok := a.containsAtoms[srcOf(v.X)]; ok && v.Value != nil && len(v.Body.List) == 1 {
+			if is, ok := v.Body.List[0].(*ast.IfStmt); ok && is.Init == nil && is.Else == nil && len(is.Body.List) == 2 {
+				x := srcOf(v.Value)
+				cond := srcOf(is.Cond)
+				as, ok1 := is.Body.List[0].(*ast.AssignStmt)
+				br, ok2 := is.Body.List[1].(*ast.BranchStmt)
+				if ok1 && ok2 && br.Tok == token.BREAK && len(as.Lhs) == 1 && len(as.Rhs) == 1 && srcOf(as.Rhs[0]) == "true" &&
+					(strings.HasSuffix(cond, " == "+x) || strings.HasPrefix(cond, x+" == ")) {
+					name := srcOf(as.Lhs[0])
+					if en[name] == kB {
+						return fmt.Sprintf("%slet %s : Bool := (%s || %s)\n", ind, name, name, at) + a.block(rest, en, ind)
+					}
+				}
+			}
+		}
 	case *ast.ExprStmt:
 		if isLogStmt(s) {
 			return a.block(rest, en, ind)
 		}
 	case *ast.AssignStmt:
+		// xs = append(xs, x) in classification mode
+		if a.appendCodes != nil && len(v.Lhs) == 1 && len(v.Rhs) == 1 {
+			if code, ok := a.appendCodes[srcOf(v.Lhs[0])]; ok {
+				if c, ok := v.Rhs[0].(*ast.CallExpr); ok && srcOf(c.Fun) == "append" && len(c.Args) == 2 && srcOf(c.Args[0]) == srcOf(v.Lhs[0]) {
+					return fmt.Sprintf("%slet appended_ : Nat := %d\n", ind, code) + a.block(rest, en, ind)
+				}
+			}
+		}
 		// xs = append(xs, x) in loop-body mode
 		if a.appendTo != "" && len(v.Lhs) == 1 && len(v.Rhs) == 1 && srcOf(v.Lhs[0]) == a.appendTo {
 			if c, ok := v.Rhs[0].(*ast.CallExpr); ok && srcOf(c.Fun) == "append" && len(c.Args) == 2 && srcOf(c.Args[0]) == a.appendTo {
